@@ -96,6 +96,10 @@ def styled_tail(rng):
     body = rng.choice(["      two\n      lines\n", "      one\n", "      a\n\n      b\n", "      x  \n"])
     extra = rng.choice(["", "", "\n", "\n\n"]) if style.endswith("+") or rng.random() < 0.3 else ""
     key = rng.choice(["value.equal_to", "value.not_equal_to", "value.in"])
+    if rng.random() < 0.3:
+        # a plain (unquoted) scalar with a TAB inside, and a flow sequence with odd spacing: one meaning, whichever loader
+        return "- path: [" + rng.choice(["zz", "a"]) + "]\n  condition:\n    " + key + ": a\tb c\n" + \
+            rng.choice(["", "- path: [ q ,0 ]\n  condition: { value.truthy:   }\n"])
     return "- path: [" + rng.choice(["zz", "a", "0"]) + "]\n  condition:\n    " + key + ": " + style + "\n" + body + extra
 
 
